@@ -343,6 +343,27 @@ func c08Run(c *fw.Ctx, i int) {
 	n := r.Range(1, 4)
 	var ins [][]byte
 	var kinds []string
+	if r.Chance(1, 1500) {
+		// one input that needs more than 65535 fragments at a tiny MTU
+		mtu = r.Pick(1, 2, 3, 4, 5, 6, 8, 12)
+		in := r.Bytes(r.Pick(65536, 65537, 66000, 70001))
+		switch kind.codec {
+		case "h264":
+			copy(in, gen.H264Unit(r, 5, len(in)))
+		case "h265":
+			copy(in, c14Unit(r, len(in)))
+		case "av1":
+			in[0] = 6 << 3
+		case "vp9":
+			hb, _ := c12Header(r, false).Encode()
+			copy(in, hb)
+			if kind.name == "vp9-nonflex" && mtu == 12 {
+				in = append(in, r.Bytes(9*65536)...)
+			}
+		}
+		c08Instance(c, kind, mtu, [][]byte{in}, []string{"many-fragments"})
+		return
+	}
 	for q := 0; q < n; q++ {
 		in, ik := c08Input(r, kind.codec, mtu)
 		if len(in) > 200000 {
